@@ -56,7 +56,7 @@ CHECKS = {
         'extra': lambda pid, tier, agg, deadline: __import__('conf_check').run(pid, tier, agg, deadline),
         'rule': 'all canonical tables (rules numbered by first mention, all reachable, cyclic ones included) of <=3 named rules over '
                 'seq sor seq3 sor3 star plus opt at not_at (+2-argument star/plus/opt/at/not_at) and any one not_one range string eof success failure, '
-                'x all inputs over {a,b,c} of length <=3 (thorough <=4), x 16 configurations (4 void-action attachments x apply_mode x top-level rewind_mode); '
+                'x all inputs over {a,b,c} of length <=4 (quick: two-rule tables over the full menu and three-rule tables over the unary/binary operators; thorough: three-rule tables over the full menu), x 16 configurations (4 void-action attachments x apply_mode x top-level rewind_mode); '
                 'plus open tables with hole leaves (every answer function of an abstract sub-rule: succeed k / fail / fail-after-consuming under rewind optional). '
                 'Oracle: reference PEG interpreter; divergent (table,input) pairs have no PEG result and are skipped. '
                 'non-trivial = the derivation backtracks over consumed input or depends on environment answers; distinct by (table,input,answers,outcome)',
@@ -65,7 +65,7 @@ CHECKS = {
     'C09': {
         'units': lambda t: [u_conv(t), u_atoms(t, 0)],
         'rule': 'every convenience rule of the statement (2- and 3-argument forms, all numeric bounds 0..4) as root over hole sub-rules, one level below '
-                'each classical operator and above seq/sor/star/opt/not_at, plus closed tables over {a,b}; reference evaluates the documented expansion; '
+                'each classical operator and above seq/sor/star/opt/not_at (holes over inputs of length 2..4, thorough 5), plus closed tables over {a,b} with inputs of length <=6 (thorough 7) and minus/rematch tables over {a,LF}; reference evaluates the documented expansion; '
                 'both top-level rewind modes',
         'assumptions': T_ASSUME,
     },
@@ -107,7 +107,7 @@ CHECKS = {
     'C18': {
         'units': lambda t: [u_limits(t)],
         'rule': 'limit_bytes<n> (n in 1,2,3) and check_bytes<1> attached by rule id to greedy, look-ahead, failing and raising rules that start at every offset '
-                '(tables of <=3 rules over the classical operators, must, until, bytes<2>, everything, string), all inputs over {a,b} of length <=4 (thorough 5) on '
+                '(tables of <=3 rules over the classical operators, must, until, bytes<2>, everything, string), all inputs over {a,b} of length <=5 (thorough 6) on '
                 'guard-paged buffers, with default and non-default initial byte/line/column counters; limit_depth<N> (N in 1,2) on every rule of recursive tables; oracle: reference evaluates the guarded rule inside the window '
                 '[start, start+n) / with a depth counter; after every outcome current_depth()==0 and end() is the original end; no peek/bump beyond the window',
         'assumptions': T_ASSUME,
@@ -127,17 +127,17 @@ CHECKS = {
         'engine': 'table-engine + static generator',
         'rule': 'family (i): every operator that has analyze_traits (classical, convenience 2- and 3-argument, numeric repetitions, try_catch_*, enable/disable/state/action/control, '
                 'raw_string with a content rule, separated_seq, if_then) over itself at every child position with the other positions filled from {one, opt<one>, at<one>, failure, eof}; '
-                'family (ii): indirect recursion - three-rule tables over the classical operators; thorough adds every ordered pair of the full unary/binary menu as two-rule tables; every table is compiled as an ordinary '
+                'family (ii): indirect recursion - three-rule tables over the classical operators; thorough adds every ordered pair of the full unary/binary menu as two-rule tables; family (iii): every repetition over the atoms whose traits say "consumes" by fiat (rep_one_min_max, maximum_rule, unsigned_rule, raw_string); family (iv): seq/sor of two repetitions whose anonymous sub-rules have printed names that agree up to a character special in type printouts ( ; ] = , > \' ), one consuming, one nullable; every table is compiled as an ordinary '
                 'static grammar and analyze<G>(-1) is asked; a loop witness is an input over {a,b,[} of length <=3 on which the reference re-enters the same (rule, position) or a repetition '
-                'body succeeds without progress, confirmed by the fuel-limited real run not terminating; violation = zero problems reported and a confirmed witness',
-        'assumptions': T_ASSUME + ['witnesses are limited to inputs of length <=3 over {a,b,[}: every enumerated rule consumes at most one byte per step, so shorter witnesses exist whenever any does'],
+                'body succeeds without progress, confirmed by the fuel-limited real run not terminating - or on which the real run does not terminate although the reference does; violation = zero problems reported and a confirmed witness',
+        'assumptions': T_ASSUME + ['witnesses are limited to inputs of length <=3 over {a,b,[,8}: every enumerated rule consumes at most one byte per step, so shorter witnesses exist whenever any does'],
         'technique': 'exhaustive enumeration of ill-formed grammar families; static analysis result of each compared with loop witnesses found by bounded exhaustive execution',
     },
     'C12': {
         'units': lambda t: [dict(u_tree(t, k), shards=4) for k in range(7)],
         'extra': lambda pid, tier, agg, deadline: __import__('c12_static').run(pid, tier, agg, deadline),
         'rule': 'tables of <=3 rules over the classical operators, must and try_catch_*_return_false with throwing actions (aborted branches the run survives) '
-                'and open tables with throwing holes, all inputs over {a,b} of length <=3 (thorough 4), through parse_tree::parse with 7 selector/transformer '
+                'and open tables with throwing holes, all inputs over {a,b} of length <=5 (thorough 6), through parse_tree::parse with 7 selector/transformer '
                 'variants (all, even ids, odd ids, fold_one, discard_empty, remove_content+fold_one, none); oracle: tree returned iff the parse succeeds; '
                 'flattened (type, begin, end, depth) sequence equals the surviving derivation of the reference with the transformers applied as documented; '
                 'node positions follow the prefix formula; compile-time leaf optimisation: static chains of depth 1..12 with every selection of <=2 chain rules under an alternative that '
@@ -217,7 +217,7 @@ CHECKS = {
         'units': lambda t: [plain_unit('u_c16', 'units/c16.cpp', t)],
         'engine': 'unit-domain',
         'rule': 'all strings over {Open, Marker, Close, LF, CR, x} of length <=10 (thorough 12) for raw_string<[,=,]>, with a content rule, and with custom characters; length <=8 (thorough 10) for '
-                'the other four eol policies and lazy tracking; an all-levels family (levels 0..40, thorough 0..300) x content templates x tails; three parse runs each (action/required, '
+                'the other four eol policies, lazy tracking and content rules that reject a line ending (not_one<LF> / not_one<CR>, eager and lazy); an all-levels family (levels 0..40, thorough 0..300) x content templates x tails; three parse runs each (action/required, '
                 'action/optional, no action); oracle: independent Lua long-bracket scanner (result, consumed, content span, one action call, cursor restored on failure)',
         'assumptions': ['oracle functions orc_* in units/c16.cpp, written from the Lua manual text'],
         'technique': 'exhaustive enumeration of bracket strings on the real code against an independent scanner',
@@ -226,7 +226,7 @@ CHECKS = {
         'units': lambda t: [plain_unit('u_c19', 'units/c19.cpp', t, tier_arg='thorough')],
         'engine': 'unit-domain',
         'rule': 'all inputs over {a, LF, CR} of length <=8 x 5 eol policies x eager/lazy x 5 initial-counter settings ((0,1,1) (7,3,5) (7,1,1) (0,3,1) (0,1,5)) x every '
-                'position 0..size obtained by bump, from a parse_error and through the policy\'s own eol rule; oracle: all returned pointers inside [begin,end]; '
+                'position 0..size obtained by bump, from a parse_error, through the policy\'s own eol rule, by asking for an earlier point after later positions were taken, and in a second run after restart(); oracle: all returned pointers inside [begin,end]; '
                 'at(p) is the byte at p; begin_of_line/end_of_line/line_at equal an independent line splitter on inputs where "line" is unambiguous for the policy; '
                 'eager and lazy agree',
         'assumptions': ['independent splitter in units/c19.cpp; for cr_crlf both readings of where the LF of a CR LF pair belongs are accepted (documented in the source)'],
